@@ -20,6 +20,11 @@ def _t(text, tech, ref, note=TRACE_NOTE):
     return dict(text=text, technique=tech, design_ref=ref, note=note)
 
 TEXT.update({
+ "C16": dict(
+    technique="TLA+ state machine of wrapper stacks (Problem.tla) model-checked by TLC; every (stack, call sequence) of the model replayed on real wrapper objects",
+    text="TLC explores all wrapper stacks up to depth 3 (thorough 4) over {counting, stats, precision, cutoff(N)} and all call sequences, checks transparency, count law, cutoff prefix / hard budget, first-hit and stickiness as invariants / action properties, and writes every maximal behaviour; each is replayed call by call on real EvalCountingProblem / EvalCutoffProblem / PrecisionCutoffProblem / StatsGatheringProblem stacks in both directions with the projected state compared after every call.",
+    note="Trusted: TLC, the replay's value concretisation. Depth and call-sequence length are bounded (see evidence).",
+    design_ref="4/C16"),
  "C01": _t("Every objective call, every individual of every recorded generation, every sprout seed of every run of the corpus carries the harness-computed atom inbox; clauses C01_EvalInBox / C01_StoredInBox / C01_SeedInBox are evaluated by TLC on every event of every trace. Corpus spans all engines, 6 box classes (incl. (-0.1,0.2), 1e-9, 1e9), dims 2-4.",
            TRACE_TECH + "clauses C01_*", "4/C01"),
  "C02": _t("TLC evaluates C02_TrueFitness (stored fitness = pure re-evaluation of the stored genome, or the cutoff sentinel after a refusal) on every recorded generation, best individual and seed, and C02_HistoryAppendOnly (digest of the first n generations at a later snapshot = digest recorded when there were n) between all consecutive boundary snapshots.",
